@@ -1,0 +1,24 @@
+//go:build verif
+
+// Verification hook (build tag `verif` only): exposes the unexported
+// (*HandlingDataManager).buildHAProxyFlowsEndpointsRequest so that the C14 correspondence harness registers
+// managed endpoints with the REAL function (on the supported filters of a real streams.Stream) instead of
+// repeating its loop.  No behaviour change; not compiled in production builds.
+package routing
+
+import (
+	"lunar/engine/config"
+	"lunar/engine/streams"
+)
+
+// VerifBuildHAProxyFlowsEndpointsRequest runs buildHAProxyFlowsEndpointsRequest for the given stream
+// without constructing a full HandlingDataManager (no telemetry, no HAProxy calls).
+func VerifBuildHAProxyFlowsEndpointsRequest(
+	stream *streams.Stream,
+) *config.HAProxyEndpointsRequest {
+	rd := &HandlingDataManager{
+		isStreamsEnabled: true,
+		StreamsData:      StreamsData{stream: stream},
+	}
+	return rd.buildHAProxyFlowsEndpointsRequest()
+}
